@@ -6,6 +6,7 @@
  *   usage: h_exprdump -p file.exp     additionally the structure exp2cxx's pass logic (multpass.c) looks at, read off the
  *                                     resolved model (q = <schema>.<name> of the object a reference resolved to):
  *     P type <name> <line> <isEnum> <isSelect> <q of the end of the TYPEget_head chain | ->
+ *       P head <q of TYPEget_head | ->
  *       P item T <q|-> <isEnum> <isSelect>   a non-entity select item, seen through ONE aggregate level (TYPEinherits_from aggregate_ -> base)
  *       P item E <q>                          an entity item, followed by one line per attribute (ENTITYget_all_attributes):
  *         P eattr <q|-> <isEnum> <isSelect>
@@ -58,6 +59,13 @@ static void pass_structure( Schema schema ) {
             printf( "P type %s %d %d %d", t->symbol.name, t->symbol.line, TYPEis_enumeration( t ) ? 1 : 0, TYPEis_select( t ) ? 1 : 0 );
             if( a != t ) {
                 q( ( Scope )a );
+            } else {
+                printf( " -" );
+            }
+            printf( "\n" );
+            printf( "P head" );
+            if( TYPEget_head( t ) ) {
+                q( ( Scope )TYPEget_head( t ) );
             } else {
                 printf( " -" );
             }
